@@ -12,4 +12,4 @@ globals().update(make(
     'Non-trivial = at least one processor had to wait for a pool (refused hand-over later accepted) AND at least one '
     'kept its reservation across back-to-back parts; distinct = SHA-1 of the canonical spec JSON.',
     lambda mon, case: mon.c['kept_reservation'] > 0 and mon.c['handovers_after_block'] > 0,
-    None, quick=(300, 4), thorough=(1500, 16)))
+    None, quick=(1000, 4), thorough=(2000, 16)))
